@@ -154,6 +154,9 @@ func (st Style) path(p []string) string {
 		// QuoteAll: qualifier and name quoted separately, the output key stays the last segment
 		return st.quote(p[0]) + "." + st.quote(p[1])
 	}
+	if simple && len(p) == 3 {
+		return st.quote(p[0]) + "." + st.quote(p[1]) + "." + st.quote(p[2])
+	}
 	return st.quote(PathText(p))
 }
 
